@@ -96,6 +96,37 @@ pub fn cli_main() {
             debug_gen(&ctx, rest.iter().any(|x| x == "--wild"));
             0
         }
+        "faults" => {
+            // debug aid: per fault kind, how often a unit with a site is found and which codes the
+            // in-process analysis answers with
+            let gates = ctx.gates_for("C13");
+            let mut big = gen_valid::Profile::default();
+            big.max_progs = 1;
+            big.sfc = false;
+            for kd in gen_valid::ALL_FAULTS.iter() {
+                let mut found = 0;
+                let mut codes: std::collections::BTreeMap<String, usize> = Default::default();
+                for k in 0..200u32 {
+                    if let Some(fu) = gen_valid::unit_with_fault_of(*kd, &k.to_le_bytes(), &gates, &big) {
+                        found += 1;
+                        let text = props::c02::spell_unit(&fu, &gates);
+                        let c = match props::c02::analyze_text(&text, "x.st").0 {
+                            props::c02::Verdict::Ok => "ok".to_string(),
+                            props::c02::Verdict::Err(ds) => {
+                                let mut v = props::c02::codes_of(&ds);
+                                v.dedup();
+                                v.join("+")
+                            }
+                            props::c02::Verdict::ParseErr(e) => format!("parse:{}", &e[..e.len().min(40)]),
+                            props::c02::Verdict::Panic(_) => "panic".to_string(),
+                        };
+                        *codes.entry(c).or_insert(0) += 1;
+                    }
+                }
+                println!("{:?} ({}): found {}/200 {:?}", kd, kd.code(), found, codes);
+            }
+            0
+        }
         "parse" => {
             let text = std::fs::read_to_string(&rest[0]).expect("read");
             let r = ironplc_parser::parse_program(&text, &ironplc_dsl::core::FileId::from_string(&rest[0]), &Default::default());
